@@ -85,11 +85,32 @@ def harness_deps(repo):
     return sorted(set(deps))
 
 
+def gen_headers(repo, outdir):
+    """cmn.h / ctx.h are produced by cmake's configure_file() into the source tree; a tree that was never
+    configured (fresh worktree) lacks them: derive them from the .in files the way the default configuration does."""
+    extra = []
+    pub = os.path.join(repo, "Lib", "core", "public", "module")
+    missing = [h for h in ("cmn.h", "ctx.h") if not os.path.exists(os.path.join(pub, h))]
+    if not missing:
+        return extra
+    gen = os.path.join(outdir, "gen")
+    os.makedirs(os.path.join(gen, "module"), exist_ok=True)
+    os.makedirs(os.path.join(gen, "public"), exist_ok=True)
+    for h in missing:
+        txt = open(os.path.join(pub, h + ".in")).read().replace("@M_CTX_HAS_FS@", "")
+        open(os.path.join(gen, "module", h), "w").write(txt)
+    link = os.path.join(gen, "public", "module")   # same files under both spellings (#pragma once goes by file identity)
+    if not os.path.islink(link):
+        os.symlink(os.path.join("..", "module"), link)
+    return ["-I" + gen]
+
+
 def build(engine, kind="asan", repo="/repo", outdir=None, verbose=False):
     spec = ENGINES[engine]
     if outdir is None:
         outdir = os.path.join(VERIF, "build", "%s-%s-%d" % (engine, kind, os.getpid()))
     os.makedirs(outdir, exist_ok=True)
+    gen_inc = gen_headers(repo, outdir)
     cache = os.path.join(VERIF, "build", "cache")
     os.makedirs(cache, exist_ok=True)
     sf = san_flags(kind)
@@ -103,7 +124,7 @@ def build(engine, kind="asan", repo="/repo", outdir=None, verbose=False):
         obj = os.path.join(outdir, "lib_" + rel.replace("/", "_")[:-2] + ".o")
         ctx = LOG_CTX[rel.split("/")[0]]
         cmd = [CC, "-c", opt, "-g", "-std=gnu11", "-D_GNU_SOURCE", "-DLIBMODULE_LOG_CTX=" + ctx,
-               "-DFEDEDP_LIBMODULE_VERIF=1", "-w"] + sf + lib_includes(repo) + [src, "-o", obj]
+               "-DFEDEDP_LIBMODULE_VERIF=1", "-w"] + sf + lib_includes(repo) + gen_inc + [src, "-o", obj]
         run(cmd)
         run(["objcopy", "--redefine-syms=" + seams, obj])
         return obj
@@ -113,7 +134,7 @@ def build(engine, kind="asan", repo="/repo", outdir=None, verbose=False):
         srcs += sorted(os.path.relpath(p, VERIF) for p in glob.glob(os.path.join(VERIF, g)))
     deps = harness_deps(repo)
     flags = [CXX, "-c", opt, "-g", "-std=c++17", "-Wall", "-Wno-unused-function", "-Wno-deprecated-declarations",
-             "-DSIM_BUILD_" + kind.upper() + "=1"] + (sf if kind != "race" else ["-fno-omit-frame-pointer"]) + pub_includes(repo) + ["-I" + VERIF]
+             "-DSIM_BUILD_" + kind.upper() + "=1"] + (sf if kind != "race" else ["-fno-omit-frame-pointer"]) + pub_includes(repo) + gen_inc + ["-I" + VERIF]
 
     def harness_job(rel):
         src = os.path.join(VERIF, rel)
